@@ -58,6 +58,20 @@ type goPanic struct {
 type procExit struct{ code int }
 
 func (x *Exec) cstr(s string) Str {
+	if len(s) <= 64 {
+		if c, ok := x.c.strCache[s]; ok {
+			return c
+		}
+		defer func() {
+			if len(x.c.strCache) < 20000 {
+				x.c.strCache[s] = x.cstr2(s)
+			}
+		}()
+	}
+	return x.cstr2(s)
+}
+
+func (x *Exec) cstr2(s string) Str {
 	b := make([]*Term, len(s))
 	for i := 0; i < len(s); i++ {
 		b[i] = x.c.st.Const(8, uint64(s[i]))
@@ -182,9 +196,19 @@ func (x *Exec) zero(t types.Type) Value {
 	case *types.Chan:
 		return nil
 	case *types.Struct:
+		if tmpl, ok := x.c.zeroCache[t]; ok {
+			return copyVal(tmpl)
+		}
 		s := make(Struct, u.NumFields())
+		cacheable := true
 		for i := range s {
 			s[i] = x.zero(u.Field(i).Type())
+			if _, isBuf := s[i].(*BufObj); isBuf {
+				cacheable = false // model objects are fresh per value
+			}
+		}
+		if cacheable && u.NumFields() > 6 {
+			x.c.zeroCache[t] = copyVal(s)
 		}
 		return s
 	case *types.Array:
